@@ -101,3 +101,17 @@ func VerifResetPools() {
 		verifResetPools()
 	}
 }
+
+var verifPoolCensus func() (writers, readers int)
+
+// VerifPoolCensus counts, per package-level pool family, the objects that sit in a pool more than
+// once (two future Gets would hand the same compressor or decompressor to two connections).
+// The pools are left as they were found.  Used as a trigger for a property-level probe, never as
+// an oracle by itself.
+func VerifPoolCensus() (writers, readers int) {
+	if verifPoolCensus != nil {
+		return verifPoolCensus()
+	}
+	return 0, 0
+}
+
